@@ -190,7 +190,8 @@ class Client(object):
         st.setProp(s["PROP_IDENTITY_AUTOTRUST"], self.autotrust)
         net = st.getLayer(0)
         client = self
-        net._YowNetworkLayer__create_dispatcher = lambda t: s["SimDispatcher"](net, client)
+        # the callbacks object the layer hands to a dispatcher (per connection where the library has that, else the layer)
+        net._YowNetworkLayer__create_dispatcher = lambda t: s["SimDispatcher"](getattr(net, "_callbacks", None) or net, client)
         self.stack = st
         self.net = net
         self.app = st.getLayer(len(layers) - 1)
